@@ -147,18 +147,64 @@ let u_eofhyp c =
   | _ -> Skip
 
 (* the lexer link of FormatCrlfProofs.format_crlf_input (lex_crlf_commutes): the lexer cuts the CRLF-ed input into the tokens of the
-   input with CRLF-ed leading whitespace.  Checked on inputs without CR whose tokens have no LF in their content. *)
+   input with CRLF-ed leading whitespace.  LexerCrlfProofs.lex_crlf proves it when crlf_link_okb holds (no LF or CR in a token text,
+   directives terminated).  Measured here: how often crlf_link_okb holds; where it does the link must hold (a
+   theorem, re-checked: DIFF otherwise); where it does not, whether the link holds anyway. *)
 let u_crlfhyp c =
-  if String.contains c.input '\r' then Skip else
   match lex_segments (bytes_of_string c.input) with
   | Some segs when List.length segs <= max_tokens ->
     let to_crlf (s : string) = String.concat "\r\n" (String.split_on_char '\n' s) in
-    if List.exists (fun ((_, ct), _) -> String.contains (string_of_bytes ct) '\n') segs then Skip else
-    (match lex_segments (bytes_of_string (to_crlf c.input)) with
-     | Some segs2 ->
-       let expect = List.map (fun ((w, ct), ty) -> ((bytes_of_string (to_crlf (string_of_bytes w)), ct), ty)) segs in
-       if segs2 = expect then Ok_ else Viol ("lex_crlf_commutes_false", "the lexer cuts the CRLF-ed input differently")
-     | None -> Diff "lexer out of fuel")
+    let hyp = crlf_link_okb segs in
+    let commutes =
+      (match lex_segments (bytes_of_string (to_crlf c.input)) with
+       | Some segs2 -> segs2 = List.map (fun ((w, ct), ty) -> ((bytes_of_string (to_crlf (string_of_bytes w)), ct), ty)) segs
+       | None -> false) in
+    if hyp then (if commutes then Ok_ else Diff "crlf_link_okb holds but the lexer cuts the CRLF-ed input differently")
+    else begin
+      let eol_in_text = List.exists (fun ((_, ct), _) -> let t = string_of_bytes ct in String.contains t '\n' || String.contains t '\r') segs in
+      Viol (Printf.sprintf "crlf_link_false_%s_%s" (if eol_in_text then "line_break_in_a_token" else "unterminated_directive")
+              (if commutes then "commutes" else "does_NOT_commute"), "crlf_link_okb does not hold")
+    end
   | _ -> Skip
 
-let () = register [ ("e2e", u_e2e); ("eofhyp", u_eofhyp); ("crlfhyp", u_crlfhyp) ]; panic_units := !panic_units @ [ ("e2e_panic", u_e2e_panic) ]
+(* how often the hypothesis of FormatIdemProofs.format_idempotent (idem_hyp) holds on the composed run, and which of its checks
+   fails first where it does not; in both cases the composed model is run again on its own output:
+     hypothesis true  -> the second output must be the first (a theorem; re-checked here: DIFF otherwise)
+     hypothesis false -> V idem_hyp_false_<first failing check>_<idempotent|NOT_idempotent> *)
+let idem_check_names = [| "rescan_fuel"; "rescan_pieces"; "rescan_kinds"; "asm"; "ignored_first_run"; "ignored_second_run";
+                          "ml_string"; "undecided_token"; "spaces_read" |]
+let u_idemhyp c =
+  match cfg_of c with
+  | None -> Skip
+  | Some cfg ->
+    (match lex_segments (bytes_of_string c.input) with
+     | Some segs when List.length segs <= max_tokens ->
+       (match format_chain U_rewriters.alnum cfg (bytes_of_string c.input) with
+        | Inr _ -> Skip
+        | Inl out ->
+          let again = (match format_chain U_rewriters.alnum cfg out with Inl o2 -> o2 = out | Inr _ -> false) in
+          let checks = idem_hyp_checks U_rewriters.alnum cfg segs in
+          let rec first i = function [] -> -1 | b :: r -> if b then first (i + 1) r else i in
+          let k = first 0 checks in
+          if k < 0 then (if again then Ok_ else Diff "idem_hyp holds but the second run changes the output")
+          else begin
+            let detail =
+              if k <> 8 then "" else
+              (match lex_segments out with
+               | Some segs2 ->
+                 let a = fm_l4 U_rewriters.alnum segs and b = fm_l4 U_rewriters.alnum segs2 in
+                 let rec go i prev x y = match x, y with
+                   | (t, f) :: x', (_, g) :: y' ->
+                     if f.f_sp = g.f_sp then go (i + 1) (Some t) x' y'
+                     else Printf.sprintf " token %d %s(%s) after %s: first run spaces %d, second run %d (second run reads nl %d)" i (name_of_tt t.t_ty)
+                            (String.escaped (string_of_bytes t.t_content))
+                            (match prev with Some p -> name_of_tt p.t_ty | None -> "-") (int_of_n f.f_sp) (int_of_n g.f_sp) (int_of_n g.f_nl)
+                   | _, _ -> "" in
+                 go 0 None a b
+               | None -> "") in
+            Viol (Printf.sprintf "idem_hyp_false_%s_%s" idem_check_names.(k) (if again then "idempotent" else "NOT_idempotent"),
+                  "idem_hyp does not hold on the composed run" ^ detail)
+          end)
+     | _ -> Skip)
+
+let () = register [ ("e2e", u_e2e); ("eofhyp", u_eofhyp); ("crlfhyp", u_crlfhyp); ("idemhyp", u_idemhyp) ]; panic_units := !panic_units @ [ ("e2e_panic", u_e2e_panic) ]
